@@ -301,6 +301,22 @@ def TT():
     return "`del B.r` of a derived reference was accepted"
 
 
+def UU():
+    """a derived reference re-bound in place (the next base takes over) keeps values reading it by attribute path"""
+    m = _reset()
+    B1, B2 = m.new_space("Base1"), m.new_space("Base2")
+    B1.x, B2.x = 1, 2
+    Bs = m.new_space("B", bases=[B1, B2])
+    A_ = m.new_space("A")
+    A_.new_cells("foo", formula="lambda: _model.B.x")
+    if A_.foo() != 1:
+        return "A.foo() == %r before the edit" % (A_.foo(),)
+    Bs.remove_bases(B1)
+    if Bs.x != 2 or A_.foo() != 2:
+        return "after B.remove_bases(Base1): B.x == %r, A.foo() == %r (expected 2, 2)" % (Bs.x, A_.foo())
+    return None
+
+
 # ------------------------------------------------------------------ C03
 def B():
     """redefining a base cells overwrites copies deriving from an override in between"""
